@@ -274,11 +274,23 @@ def run(repo, rep, tier):
         fs = [x for x in T.walk(Er)] if Er is not None else []
         signs = [x for x in fs if x[0] == "phi" and x[2] == T.num(-1) and x[3] == T.num(1) and x[1][0] == "cmp" and x[1][1] in ("Gt", "GtE") and x[1][3] == T.PI]
         ok5 = False
+        unknown5 = False
+        mred = None
         if len(signs) == 1:
             c, rest = T.split_coeff(Er)
             fac = rest[1:] if rest[0] == "mul" else (rest,)
             ok5 = signs[0] in fac and c == 1 and any(f[0] == "loopout" for f in fac)
             mred = signs[0][1][2]
+        elif Er is not None and Er[0] == "phi" and Er[1][0] == "cmp" and Er[1][1] in ("Gt", "GtE") and Er[1][3] == T.PI:
+            # the same bookkeeping written as `if mirrored: e0 = -e0`:  E = (m' > pi) ? -e0 : e0
+            try:
+                ok5 = Algebra(atomize=True).equal(Er[2], T.neg(Er[3])) and any(x[0] == "loopout" for x in T.walk(Er[3]))
+            except Exception:
+                ok5 = False
+            mred = Er[1][2]
+        elif Er is not None and not signs:
+            unknown5 = True
+        if mred is not None:
             # the reduced anomaly compared with pi: phi(m'' < 0 ? m'' + 2pi : m''), m'' = 2*pi*sign(m)*frac(|m|/(2pi))
             m = T.mul(T.sym("MA"), D2R)
             frac = T.sub(T.div(T.call("abs", m), T.mul(T.num(2), T.PI)), T.call("floor", T.div(T.call("abs", m), T.mul(T.num(2), T.PI))))
@@ -291,7 +303,9 @@ def run(repo, rep, tier):
                 except Exception:
                     ok_red = False
             ok5 = ok5 and ok_red
-        if ok5:
+        if unknown5:
+            rep.inconcl("R-E4-ID", site, "the sign bookkeeping of the anomaly reduction (mirror when the reduced M > pi) is not recognised in the returned E")
+        elif ok5:
             rep.ok("R-E4-ID", site + ":reduction", "M reduced to [0, 2pi) keeping its sign of turn; result E = e0 * f with f = -1 exactly when the reduced M > pi (mirror branch)", obligation=True)
         else:
             rep.violation("R-E4-ID", site, "anomaly-reduction", "anomaly reduction / sign bookkeeping differs from: reduce M modulo 2pi, mirror when > pi, E = e0*f", obligation=True)
